@@ -286,6 +286,14 @@ func (a *analysis) oracleC04() verdict {
 // began after a resize had returned (and before the next one was invoked) is laid
 // out for the size in force: at most rows-1 bar rows, no row wider than the
 // columns.
+//
+// The size in force is that of the resize which took effect last. A resize takes
+// effect somewhere between its invocation and its return, so of two resizes issued
+// by different clients whose intervals overlap either one may be the later (the
+// order in which the history lists them says nothing: correction 31). The sizes
+// that can be in force when a cycle begins are therefore those of the returned
+// resizes after whose return no other returned resize was invoked; a frame has to
+// fit one of them, in rows and in columns at once.
 func (a *analysis) fitsAfterResize() verdict {
 	sc := a.sc
 	type rs struct {
@@ -298,42 +306,88 @@ func (a *analysis) fitsAfterResize() verdict {
 			sizes = append(sizes, rs{o.Inv, o.Ret, int(o.Op.N), o.Op.B})
 		}
 	}
-	checked := 0
+	checked, several := 0, 0
 	for fi, f := range a.frames {
 		if f.Cycle < 0 || f.Cycle >= len(a.begins) {
 			continue
 		}
 		tb := a.begins[f.Cycle]
-		// the size in force: the last resize that had returned before the cycle began,
-		// provided no other resize overlaps the cycle
-		cur := -1
+		// resizes that had returned before the cycle began, provided no other resize
+		// overlaps the cycle
+		var done []int
 		ambiguous := false
 		for i, z := range sizes {
 			if z.ret <= tb {
-				cur = i
+				done = append(done, i)
 			} else if z.inv < f.T1 {
 				ambiguous = true
 			}
 		}
-		if cur < 0 || ambiguous {
+		if len(done) == 0 || ambiguous {
 			continue
 		}
-		z := sizes[cur]
-		if cur > 0 {
-			checked++
-		}
-		if rc := f.rowCount(); rc > z.rows-1 && z.rows > 1 {
-			return a.fv("resize-rows", "frame %d (cycle began at t=%d) has %d rows; the terminal has had %d rows since t=%d: the frame does not fit", fi, tb, rc, z.rows, z.ret)
-		}
-		for _, g := range f.Groups {
-			for _, l := range g.Lines {
-				if w := vterm.StringWidth(stripSGR(l)); w > z.cols {
-					return a.fv("resize-cols", "frame %d (cycle began at t=%d): a row is %d columns wide; the terminal has had %d columns since t=%d", fi, tb, w, z.cols, z.ret)
+		// ... of which those can have been the last to take effect that no other one
+		// is known to follow
+		var cand []rs
+		initial := false
+		for _, i := range done {
+			last := true
+			for _, j := range done {
+				if sizes[j].inv > sizes[i].ret {
+					last = false
+				}
+			}
+			if last {
+				cand = append(cand, sizes[i])
+				if i == 0 {
+					initial = true
 				}
 			}
 		}
+		if !initial {
+			checked++
+		}
+		if len(cand) > 1 {
+			several++
+		}
+		fits := false
+		var why string
+		for _, z := range cand {
+			ok := true
+			if rc := f.rowCount(); rc > z.rows-1 && z.rows > 1 {
+				ok = false
+				if why == "" {
+					why = fmt.Sprintf("has %d rows; the terminal has had %d rows since t=%d: the frame does not fit", rc, z.rows, z.ret)
+				}
+			}
+			for _, g := range f.Groups {
+				for _, l := range g.Lines {
+					if w := vterm.StringWidth(stripSGR(l)); w > z.cols && ok {
+						ok = false
+						if why == "" {
+							why = fmt.Sprintf("a row is %d columns wide; the terminal has had %d columns since t=%d", w, z.cols, z.ret)
+						}
+					}
+				}
+			}
+			if ok {
+				fits = true
+				break
+			}
+		}
+		if !fits {
+			key := "resize-rows"
+			if !strings.HasPrefix(why, "has ") {
+				key = "resize-cols"
+			}
+			if len(cand) > 1 {
+				why += fmt.Sprintf(" (nor does it fit any other of the %d sizes that overlapping resizes can have left in force: %+v)", len(cand), cand)
+			}
+			return a.fv(key, "frame %d (cycle began at t=%d) %s", fi, tb, why)
+		}
 	}
 	a.ob("frames_checked_after_a_resize", checked)
+	a.ob("frames_with_several_possible_sizes", several)
 	return held(checked > 0)
 }
 
